@@ -1,11 +1,21 @@
 import SnaxVerif.Drv.C07
 import SnaxVerif.Props.C06
+import SnaxVerif.Model.AccfgMove
 namespace SnaxVerif.Drv.C06
-open Lean SnaxVerif SnaxVerif.Drv SnaxVerif.Drv.C07
+open Lean SnaxVerif SnaxVerif.Drv SnaxVerif.Drv.C07 SnaxVerif.Accfg
 
 /-- the literals of the D26 witness theorem, for comparison with what the real passes produce -/
 def witness : Handler := fun _ =>
   return Json.mkObj [("before", blockToJson SnaxVerif.C06.d26Before), ("after", blockToJson SnaxVerif.C06.d26After)]
 
-def handlers : List (String × Handler) := [("c06.witness", witness)]
+/-- args: {"path": [nat] (block path, last element = start of the segment), "flags": [bool], "body": block}
+ -> {"after": block | null, "wf": bool, "nodup": bool} -/
+def move : Handler := fun j => do
+  let b ← blockOfJson (← field j "body")
+  let path ← listOf nat (← field j "path")
+  let flags ← listOf bool (← field j "flags")
+  return Json.mkObj [("after", jOpt blockToJson (applyBlockMove path flags b)),
+    ("wf", Json.bool (wfB b)), ("nodup", Json.bool (nodupB b))]
+
+def handlers : List (String × Handler) := [("c06.witness", witness), ("c06.move", move)]
 end SnaxVerif.Drv.C06
